@@ -220,11 +220,9 @@ class ContractSet:
             return VInt(i=t, lo=0, hi=None)
         if typ.startswith("int["):
             lo, hi = [int(x, 0) for x in typ[4:-1].split(",")]
-            if hi - lo < (1 << 62) and lo >= -(1 << 62):
-                t = z3.Int(fresh(name))
-                P.assume(z3.And(t >= lo, t <= hi))
-                return VInt(i=t, lo=lo, hi=hi)
-            raise Unsupported("int range too wide")
+            t = z3.Int(fresh(name))
+            P.assume(z3.And(t >= lo, t <= hi))
+            return VInt(i=t, lo=lo, hi=hi)
         if typ == "byte":
             return B.byte_val(z3.BitVec(fresh(name), 8))
         if typ == "bool":
